@@ -317,6 +317,22 @@ def ep_date_cat_number_format(env, s):
     return got[0] if got[0] == got[1] else repr(got)
 
 
+def ep_ph_name_then_insert(env, s):
+    sl = env.prs.slides.add_slide(env.prs.slide_layouts[8])
+    ph = [p for p in sl.placeholders if p.placeholder_format.type is not None and "PICTURE" in str(p.placeholder_format.type)][0]
+    ph.name = s                      # through the lxml API
+    pic = ph.insert_picture(env.file("plain.png", png()))   # the name now travels through the p:pic template
+    return pic.name
+
+
+def ep_shape_name_then_group(env, s):
+    sh = env.slide.shapes.add_textbox(0, 0, 9, 9); sh.name = s
+    g = env.slide.shapes.add_group_shape([sh])
+    return g.shapes[0].name
+
+
+ENTRY_POINTS.append(("placeholder name, then insert_picture", lambda s: True, ep_ph_name_then_insert))
+ENTRY_POINTS.append(("shape name, then grouped", lambda s: True, ep_shape_name_then_group))
 ENTRY_POINTS.append(("date categories number_format", lambda s: s != "", ep_date_cat_number_format))
 
 FRAGS = ["&", "<", ">", '"', "'", "&amp;", "&#10;", "&lt;x", "]]>", "<![CDATA[", "</a:t>", "<a:br/>", "\t", "\n", "\r", "\r\n", " ", "a", "Z",
